@@ -89,7 +89,8 @@ func runScenario(s scen, canon, spelling, op string) []string {
 	sv := h.ServiceForSKI(canon)
 	_, hasCounter := h.VerifAttemptCounter(canon)
 	_, hasConn := h.VerifRegistry()[canon]
-	obs = append(obs, fmt.Sprintf("OSnap %s %d %s %s", vh.B(sv.Trusted()), sv.ConnectionStateDetail().State(), vh.B(hasCounter), vh.B(hasConn)))
+	nrec, npaired := h.VerifServiceCounts()
+	obs = append(obs, fmt.Sprintf("OSnap %s %d %s %s %d %d", vh.B(sv.Trusted()), sv.ConnectionStateDetail().State(), vh.B(hasCounter), vh.B(hasConn), nrec, npaired))
 	return obs
 }
 
